@@ -81,7 +81,7 @@ func (c *c18) j2tCase(jc J2TCase) {
 	} else if jc.Text != nil {
 		text = []byte(*jc.Text)
 	} else {
-		text = []byte(printJX(jc.J, rand.New(rand.NewSource(jc.Seed)), jc.Variant == "b64-escaped", false))
+		text = []byte(printJX(jc.J, rand.New(rand.NewSource(jc.Seed)), jc.Variant == "b64-escaped", oneDefectClass(jc.Variant)))
 	}
 	d, err := parseChecked(text)
 	if err != nil {
